@@ -13,6 +13,31 @@ TRUST = ("Trusted base: CPython 3.12, ruamel.yaml 0.17.21 loader/dumper, "
 
 # id -> (built?, category, technique, text, level_note, design_ref)
 CHECKS = {
+    "C01": (True, "exploration",
+            "exhaustive small-scope enumeration + Hypothesis generation, "
+            "differential against an independent three-valued reference "
+            "evaluator, plus metamorphic relations (dot==slash, exists, "
+            "optional==required)",
+            "Every document of <= 3 nodes x every path of <= 2 vocabulary "
+            "segments is compared with a reference evaluator written from "
+            "the README (complete), larger scopes by seed-offset stride, "
+            "random documents with anchors and derived paths beyond; same "
+            "positions, same order, same multiplicity. Documentation-silent "
+            "corners are Unspecified and counted, not decided.",
+            TRUST + "The reference evaluator (vp/model/query.py, "
+            "vp/model/compare.py) is the oracle; crashes are left to C15.",
+            "6/C01"),
+    "C15": (True, "exploration",
+            "exhaustive small-scope enumeration + Hypothesis generation "
+            "against an exception-type oracle with signature bucketing",
+            "Every document of <= 3 nodes (4 thorough) x every path of <= 2 "
+            "segments from a 61-item vocabulary built to hit index, slice, "
+            "null, regex, literal, keyword and collector edge cases, through "
+            "required / exists / optional entry points; only "
+            "YAMLPathException may escape. Root causes are bucketed by "
+            "(type, frame, source line) so known findings do not hide new "
+            "ones.",
+            TRUST, "6/C15"),
     "C14": (True, "exploration",
             "exhaustive small-scope enumeration of path text + Hypothesis "
             "text generation against an exception-type oracle",
